@@ -14,7 +14,7 @@ def run(data):
     else:
         implib.load()
     import measured
-    from measured import Unit, Prefix, Dimension
+    from measured import Quantity, Unit, Prefix, Dimension
     kind = data["kind"]
     Cls = {"unit": Unit, "prefix": Prefix, "dimension": Dimension}[kind]
     tracked, index = [], {}
@@ -64,6 +64,12 @@ def run(data):
                 o = tracked[op[1]]; o.alias(name=op[2], symbol=op[3])
             elif k == "uderive":
                 o = Unit.derive(tracked[op[1]], op[2], op[3])
+            elif k == "uscale":
+                d_ = Dimension._by_name[op[1]]
+                if op[4] == "number": zero = 5
+                elif op[4] == "otherdim": zero = Quantity(1, next(u for u in Unit._known.values() if u.dimension is not d_ and u.name))
+                else: zero = Quantity(1, next(u for u in Unit._known.values() if u.dimension is d_ and u.name))
+                o = d_.scale(zero, op[2], op[3])
             elif k == "uanon":
                 a, b = tracked[op[1]], tracked[op[2]]
                 o = a * b if op[3] == "mul" else (a / b if op[3] == "div" else a ** op[4])
